@@ -137,6 +137,8 @@ func (v *globValidator) validateNext() bool {
 			case scanner.EOF:
 				v.unexpected(c, "end of character match []", "missing ]")
 				return false
+			case '\n', '\r':
+				v.unexpected(c, "content of character match []", "newline cannot be contained")
 			default:
 				if v.scan.Peek() != '-' {
 					// in case of single character
@@ -158,7 +160,9 @@ func (v *globValidator) validateNext() bool {
 					// do nothing
 				default:
 					c = v.scan.Next() // eat end of range
-					if s > c {
+					if c == '\n' || c == '\r' {
+						v.unexpected(c, "character range in []", "newline cannot be contained")
+					} else if s > c {
 						why := fmt.Sprintf("start of range %q (%d) is larger than end of range %q (%d)", s, s, c, c)
 						v.unexpected(c, "character range in []", why)
 					}
